@@ -1580,7 +1580,12 @@ sexp sexp_apply (sexp ctx, sexp proc, sexp args) {
       sexp_raise("string-cursor-next: not a string", sexp_list1(ctx, _ARG1));
     else if (! sexp_string_cursorp(_ARG2))
       sexp_raise("string-cursor-next: not a string-cursor", sexp_list1(ctx, _ARG2));
-    _ARG2 = sexp_string_cursor_next(_ARG1, _ARG2);
+    /* outside the string there is no character to step over */
+    i = sexp_unbox_string_cursor(_ARG2);
+    if ((i < 0) || (i >= (sexp_sint_t)sexp_string_size(_ARG1)))
+      _ARG2 = sexp_make_string_cursor(i + 1);
+    else
+      _ARG2 = sexp_string_cursor_next(_ARG1, _ARG2);
     top--;
     sexp_check_exception();
     break;
@@ -1589,7 +1594,18 @@ sexp sexp_apply (sexp ctx, sexp proc, sexp args) {
       sexp_raise("string-cursor-prev: not a string", sexp_list1(ctx, _ARG1));
     else if (! sexp_string_cursorp(_ARG2))
       sexp_raise("string-cursor-prev: not a string-cursor", sexp_list1(ctx, _ARG2));
-    _ARG2 = sexp_string_cursor_prev(_ARG1, _ARG2);
+    /* never look at bytes before the start or after the end */
+    i = sexp_unbox_string_cursor(_ARG2);
+    if ((i <= 0) || (i > (sexp_sint_t)sexp_string_size(_ARG1))) {
+      _ARG2 = sexp_make_string_cursor(i - 1);
+    } else {
+#if SEXP_USE_UTF8_STRINGS
+      do { i--; } while ((i > 0) && ((((unsigned char*)sexp_string_data(_ARG1))[i])>>6 == 2));
+      _ARG2 = sexp_make_string_cursor(i);
+#else
+      _ARG2 = sexp_string_cursor_prev(_ARG1, _ARG2);
+#endif
+    }
     top--;
     sexp_check_exception();
     break;
